@@ -42,3 +42,6 @@ META = {
                "independent closed forms, exhaustive names x sizes x alpha "
                "grid + random cases",
 }
+
+# EXTENSION families added after the seeded-change rounds
+META["rule"] += (" Added after the seeded-change rounds: " '(c14_x) call - mutate the returned list in place - call again with the same arguments, for sizes not requested before in the process' ".")
